@@ -104,10 +104,15 @@ pub fn bind_next(
                         return new_loc_err(Error::OutOfListBounds{index: n});
                     }
 
-                    let lhs_val = &mut lock_deref!(items)[n as usize];
+                    // We don't hold the lock on `items` while applying the
+                    // operation, because the operands of the operation may
+                    // include `items` itself (e.g. `xs[0] += xs`).
+                    let mut lhs_val = lock_deref!(items)[n as usize].clone();
 
-                    binary_operation_assign(lhs_val, rhs, op)
+                    binary_operation_assign(&mut lhs_val, rhs, op)
                         .context(BinOpAssignListIndexFailed)?;
+
+                    lock_deref!(items)[n as usize] = lhs_val;
 
                     Ok(())
                 },
